@@ -24,6 +24,10 @@ func init() {
 		ruleR3(c, "C03.T8")
 		ruleStale(c, "C03.T9")
 		ruleT10(c, "C03.T10")
+		// a freed inode is empty (Resize(0) before FreeInode): otherwise the next CREATE that is given the number
+		// returns a file with the removed file's size and data - no order of the operations produces that
+		ruleF1(c, "C03.T11")
+		ruleT12(c, "C03.T12")
 	}
 }
 
@@ -1098,5 +1102,85 @@ func ruleT10(c *Ctx, id string) {
 	for _, k := range keys {
 		a := res[k]
 		R.Check(!a.bad, id, k, a.pos, "no transaction of the request is committed when this one begins", "only aborted or untouched predecessors on every explored path", a.why+": the request is served from two states of the file system")
+	}
+}
+
+// ruleT12: a name is entered only if it was found free under the lock that is
+// held when it is entered.  getAlloc retries in a fresh transaction after
+// helping the shrinker; the directory was unlocked in between, so "the name
+// does not exist" must be established again after every (re)acquisition of the
+// directory, not once.
+func ruleT12(c *Ctx, id string) {
+	V, P, R := c.V, c.P, c.R
+	R.Rule(id, "existence is checked under the lock in force: in getAlloc every path from an acquisition of the directory (GetInodeFh) to a return that may report success passes dir.LookupName", 1)
+	ga := c.fn(id, "nfs.(*Nfs).getAlloc")
+	lookup := c.fn(id, "dir.LookupName")
+	if ga == nil || lookup == nil || V.GetInodeFh == nil {
+		return
+	}
+	// the edges that carry a possibly-OK status into a return
+	type edge struct{ f, t *ssa.BasicBlock }
+	okEdge := map[edge]bool{}
+	okRet := map[*ssa.BasicBlock]bool{}
+	nres := ga.Signature.Results().Len()
+	for _, rs := range returnSources(ga, nres-1) {
+		if k, isk := constInt(stripConv(rs.Val)); isk && k != 0 {
+			continue // an error status
+		}
+		if rs.To != nil {
+			okEdge[edge{rs.From, rs.To}] = true
+		} else {
+			okRet[rs.From] = true
+		}
+	}
+	hasLookup := func(b *ssa.BasicBlock, after ssa.Instruction) bool {
+		seenAfter := after == nil
+		for _, in := range b.Instrs {
+			if in == after {
+				seenAfter = true
+				continue
+			}
+			if seenAfter && callTo(lookup)(in) {
+				return true
+			}
+		}
+		return false
+	}
+	n := 0
+	for _, g := range P.CallsIn(ga, funcIs(V.GetInodeFh)) {
+		n++
+		bad := ""
+		if !hasLookup(g.Block(), g) {
+			seen := map[*ssa.BasicBlock]bool{}
+			var dfs func(b *ssa.BasicBlock)
+			dfs = func(b *ssa.BasicBlock) {
+				for _, s2 := range b.Succs {
+					if bad != "" {
+						return
+					}
+					if okEdge[edge{b, s2}] {
+						bad = P.Pos(b.Instrs[len(b.Instrs)-1].Pos())
+						return
+					}
+					if s2 == g.Block() || seen[s2] || hasLookup(s2, nil) {
+						continue // back at the acquisition (checked from there), or the name is looked up here
+					}
+					seen[s2] = true
+					if okRet[s2] {
+						bad = P.Pos(s2.Instrs[len(s2.Instrs)-1].Pos())
+						return
+					}
+					dfs(s2)
+				}
+			}
+			if okRet[g.Block()] {
+				bad = P.Pos(g.Pos())
+			}
+			dfs(g.Block())
+		}
+		R.Check(bad == "", id, fmt.Sprintf("nfs.getAlloc|name looked up after acquisition#%d", n), P.Pos(g.Pos()), "no path from this GetInodeFh to a possibly successful return avoids dir.LookupName", "every such path looks the name up", "a path reaches a possibly successful return ("+bad+") without looking the name up under this lock: while the request helped the shrinker the directory was unlocked, another client's CREATE of the same name completes, and both are acknowledged - the directory lists the name twice")
+	}
+	if n == 0 {
+		R.Fail(id, "nfs.getAlloc|acquires the directory", P.Pos(ga.Pos()), "getAlloc locks the directory through its handle", "no GetInodeFh call")
 	}
 }
